@@ -2457,14 +2457,43 @@ func (s *Store) waitForLinearizableRead(currReadTerm uint64, linearizableTimeout
 		lt = linearizableTimeout
 	}
 
-	// Now, wait for it.
-	ch := s.fsmTarget.Subscribe(readIndex)
+	// Now, wait for it. Only command entries are applied to the FSM, so if the
+	// entries at the tail of the committed log are of another type (cluster
+	// membership change, barrier, no-op) the FSM index will never reach the
+	// read index. Wait for the latest command entry instead.
+	targetIndex, needWait := s.latestCommandIndex(readIndex)
+	if !needWait {
+		return nil
+	}
+	ch := s.fsmTarget.Subscribe(targetIndex)
 	select {
 	case <-ch:
 		return nil
 	case <-time.After(lt):
 		return fmt.Errorf("index %d: %w", readIndex, ErrWaitForFSMTimeout)
 	}
+}
+
+// latestCommandIndex returns the index of the most recent command entry in the
+// log at or below idx which may not yet have been applied to the FSM. If there
+// is no such entry, because every command entry at or below idx has already
+// been applied, false is returned.
+func (s *Store) latestCommandIndex(idx uint64) (uint64, bool) {
+	var l raft.Log
+	for i := idx; i > s.fsmIdx.Load(); i-- {
+		if err := s.raftLog.GetLog(i, &l); err != nil {
+			if err == raft.ErrLogNotFound {
+				// Compacted, so this entry and all before it are in a snapshot,
+				// and therefore have been applied.
+				return 0, false
+			}
+			return idx, true
+		}
+		if l.Type == raft.LogCommand {
+			return i, true
+		}
+	}
+	return 0, false
 }
 
 func (s *Store) isStaleRead(freshness int64, strict bool) bool {
